@@ -115,7 +115,7 @@ Print Assumptions C05_sprintf_leaf_safe_text_is_public.
 (* ... and for trees of slices, arrays, structs, maps and interface slots over such leaves:
    punctuation, field names and type names are public, every unsafe leaf is enveloped *)
 Theorem C05_sprintf_tree_safe_text_is_public : forall fuel env f a1 a2 o1 o2,
-  osane (orc env) -> hook_ok env -> no_star f = true -> Forall2 arel a1 a2 ->
+  osane (orc env) -> hook_ok env -> star_ok f a1 a2 -> Forall2 arel a1 a2 ->
   sprintf fuel env f a1 = ROk o1 -> sprintf fuel env f a2 = ROk o2 ->
   forall ops1 ops2, o_log o1 = ops1 ++ [OTake] -> o_log o2 = ops2 ++ [OTake] ->
   rawok (o_log o1) = true -> rawok (o_log o2) = true ->
